@@ -1,5 +1,6 @@
 import LeptosModel.Model.Html
 import LeptosModel.Model.View
+import LeptosModel.Model.Stream
 /-!
 # Model/Hydrate — SSR printer, expected DOM and the hydration walk of tachys over `View` (C05)
 
@@ -38,11 +39,12 @@ impl of the same name for the same view type **as it is** (sync `to_html()`, `hy
 | `runHydrated`, `runCsr`, `likeCsr` | the two runs the property compares and its oracle                                        |
 | `stripL`, `treesBeq`          | the property's observable: comments removed, adjacent text merged, empty text dropped         |
 
+| `suspTy`, `clientOf`, `fidsOf`, `compile`, `Agree`, `syncPart`, `planOf`, `runPlan`, `stream` | reactive_graph/suspense.rs `Suspend` and the streamed forms (`to_html_async_with_buf::<OUT_OF_ORDER>` of every modelled view with the `Position` threaded), run on `Model/Stream.lean` (C07): see the section at the end of this file |
+
 Not modelled (stated): `FROM_SERVER = false` (templates), `InertElement`, `Keyed`, `StaticVec`/`Fragment`
-(nested *tuples* are modelled), islands, reactive closures and `Suspend` (their hydration is the
-hydration of the value they hold), `inner_html`, the streamed forms (for a view without async parts
-the in-order and out-of-order streams concatenate to the sync string — checked by the harness on
-every case; the async case reduces to the sync form through C07), the `hot-reload` comment skipping of
+(nested *tuples* are modelled; the driver expresses the first three through modelled constructors), islands,
+reactive closures (their hydration is the hydration of the value they hold), `inner_html`, a `Suspend` nested in
+the value of a pending `Suspend`, `Suspend` under a `<Suspense>` boundary (C07), the `hot-reload` comment skipping of
 `Rndr::first_child/next_sibling` under `debug_assertions` (such comments are never emitted by `to_html`).
 -/
 namespace Leptos.Hydrate
@@ -805,5 +807,175 @@ def likeCsr (ts : List HTree) (a b : View) : Bool := likeCsrOf (runHydrated ts a
 
 /-- the oracle on the code before the repair of F-C05-1 -/
 def likeCsrOld (ts : List HTree) (a b : View) : Bool := likeCsrOf (runHydratedOld ts a b) a b
+
+/-! ## `Suspend` and the streamed forms (tachys/src/reactive_graph/suspense.rs, C07's `Model/Stream`)
+
+`View` has no constructor for `Suspend`; a `Suspend` whose future is the base future `fid` and whose value is the
+view `v` is carried as `.any (suspTy fid) (.osome v)`: for `to_html`, `hydrate::<true>`, `build` and `rebuild` with
+the data present (`now_or_never` = `Some`) it *is* `Option::Some(v)` (suspense.rs: `hydrate` = `initial.hydrate`,
+`build` = `initial.build`, `rebuild` = `Some(value).rebuild`, `resolve` = `Some(inner.await.resolve().await)`),
+which is what every definition above computes for `.any _ (.osome v)`.  On the client every future is ready
+(`clientOf`: the tag no longer names a future; two `Suspend`s have one Rust type).
+
+On the server `compile` is `to_html_async_with_buf::<OUT_OF_ORDER>` for the whole grammar with the `Position`
+threaded (C07's own `compile` has no positions): it produces a builder program of `Model/Stream` (`Stream.Op`), which
+`Stream.startStream` / `Run.poll` run against any completion schedule and `Stream.applyScripts` replays on the client.
+* every view but `Suspend`: the synchronous rules (`html`, `after`), cut into `push_sync` pieces where a child may
+  suspend (element: open tag, children, close tag; tuple / `Vec` / `Option` / `Either` / `AnyView`: pass through);
+* `Suspend`, future ready at render time (`fid ∈ done0`): the value rendered in place;
+* pending, in-order: `buf.next_id(); buf.push_async(…)`, the future's sub-builder renders the value from a *copy* of
+  the position, and the caller continues with `Position::NextChild` — a guess: right iff the value leaves `NextChild`;
+* pending, out-of-order: `buf.next_id(); push_fallback((), &mut copy); push_async_out_of_order(fut, position)` (the value is
+  rendered later, with `escape = true`, from another copy), and the caller continues with its position unchanged — a
+  guess as well: right iff the value leaves the position it started from.
+`Agree` is the decidable condition "every guess is right"; under it the resolved document of the program is the
+synchronous HTML (`compile_doc`, Proofs/HydrateStream), otherwise the following string may lose or gain a `<!>`
+(class `suspend-position`, F-C05-6).  A `Suspend` nested in the value of a pending `Suspend` is not modelled (its
+readiness is decided when the outer future resolves); the harness does not generate it. -/
+
+def suspTy (fid : Nat) : Ty := .elem "#suspend" [] (.arr fid .unit)
+
+def suspFid : Ty → Option Nat
+  | .elem tag [] (.arr n .unit) => if tag = "#suspend" then some n else none
+  | _ => none
+
+mutual
+/-- the client's view: every future is ready, `Suspend<T>` is one type whatever its future -/
+def clientOf : View → View
+  | .elem tag as c => .elem tag as (clientOf c)
+  | .tuple vs => .tuple (clientOfL vs)
+  | .osome v => .osome (clientOf v)
+  | .either n i v => .either n i (clientOf v)
+  | .vec vs => .vec (clientOfL vs)
+  | .any ty v => .any (match suspFid ty with | some _ => suspTy 0 | none => ty) (clientOf v)
+  | v => v
+def clientOfL : List View → List View
+  | [] => []
+  | v :: vs => clientOf v :: clientOfL vs
+end
+
+mutual
+/-- the base futures the `Suspend`s of a view wait for, in document order -/
+def fidsOf : View → List Nat
+  | .elem _ _ c => fidsOf c
+  | .tuple vs => fidsOfL vs
+  | .osome v => fidsOf v
+  | .either _ _ v => fidsOf v
+  | .vec vs => fidsOfL vs
+  | .any ty v => (match suspFid ty with | some f => [f] | none => []) ++ fidsOf v
+  | _ => []
+def fidsOfL : List View → List Nat
+  | [] => []
+  | v :: vs => fidsOf v ++ fidsOfL vs
+end
+
+def suspFut (f : Nat) : Stream.Fut := { deps := [f], tick := false }
+
+mutual
+/-- `RenderHtml::to_html_async_with_buf::<ooo>(buf, position, escape)`: the calls on the `StreamBuilder` and the
+    `Position` left behind; `done0` = the futures already completed when the view is rendered -/
+def compile (ooo : Bool) (done0 : List Nat) (esc : Bool) : View → Position → List Stream.Op × Position
+  | .elem tag as c, _ =>
+    (.sync ('<' :: tag.toList ++ Html.attrsHtml (attrsOf as) ++ ['>']) ::
+      (if isVoidT tag then []
+       else (if viewExists c then (compile ooo done0 (escKids tag) c .firstChild).1 else []) ++
+            [.sync ('<' :: '/' :: tag.toList ++ ['>'])]),
+     .nextChild)
+  | .tuple vs, pos => compileL ooo done0 esc vs pos
+  | .osome v, pos => compile ooo done0 esc v pos
+  | .either _ _ v, pos => compile ooo done0 esc v pos
+  | .vec vs, pos =>
+    let r := compileL ooo done0 esc vs pos
+    (r.1 ++ (if esc then [.sync marker] else []), if esc then .nextChild else r.2)
+  | .any ty v, pos =>
+    match suspFid ty with
+    | none => compile ooo done0 esc v pos
+    | some f =>
+      if done0.contains f then compile ooo done0 esc v pos
+      else if ooo then
+        ([.nextId, .fallback marker, .ooo (suspFut f) true (compile ooo done0 true v pos).1 none], pos)
+      else
+        ([.nextId, .async (suspFut f) (compile ooo done0 esc v pos).1], .nextChild)
+  | .text s, pos => ([.sync (html esc (.text s) pos)], .nextChildAfterText)
+  | .unit, pos => ([.sync (html esc .unit pos)], after esc .unit pos)
+  | .onone, pos => ([.sync (html esc .onone pos)], after esc .onone pos)
+def compileL (ooo : Bool) (done0 : List Nat) (esc : Bool) : List View → Position → List Stream.Op × Position
+  | [], pos => ([], pos)
+  | v :: vs, pos =>
+    let r := compile ooo done0 esc v pos
+    let rs := compileL ooo done0 esc vs r.2
+    (r.1 ++ rs.1, rs.2)
+end
+
+mutual
+/-- every guess of a pending `Suspend` about the position it leaves is right -/
+def Agree (ooo : Bool) (done0 : List Nat) (esc : Bool) : View → Position → Bool
+  | .elem tag _ c, _ => isVoidT tag || !viewExists c || Agree ooo done0 (escKids tag) c .firstChild
+  | .tuple vs, pos => AgreeL ooo done0 esc vs pos
+  | .osome v, pos => Agree ooo done0 esc v pos
+  | .either _ _ v, pos => Agree ooo done0 esc v pos
+  | .vec vs, pos => AgreeL ooo done0 esc vs pos
+  | .any ty v, pos =>
+    match suspFid ty with
+    | none => Agree ooo done0 esc v pos
+    | some f =>
+      if done0.contains f then Agree ooo done0 esc v pos
+      else if ooo then esc && Agree ooo done0 true v pos && decide (after true v pos = pos)
+      else Agree ooo done0 esc v pos && decide (after esc v pos = .nextChild)
+  | _, _ => true
+def AgreeL (ooo : Bool) (done0 : List Nat) (esc : Bool) : List View → Position → Bool
+  | [], _ => true
+  | v :: vs, pos => Agree ooo done0 esc v pos && AgreeL ooo done0 esc vs (after esc v pos)
+end
+
+mutual
+/-- `Suspend::rebuild` does nothing at once: it spawns a task that runs `Some(value).rebuild(state)` later.  A rebuild
+    with `b` of a state built from `a` is therefore the rebuild with `syncPart a b` (where `b` meets a `Suspend` of `a`
+    in place, `a`'s value stays) followed, once the tasks have run (in spawn = document order), by the rebuild with
+    `b` itself.  (The order is only observable when two states share a node: class `suspend-position`.) -/
+def syncPart : View → View → View
+  | .elem _ _ c, .elem t' as' c' => .elem t' as' (syncPart c c')
+  | .tuple vs, .tuple ws => .tuple (syncPartL vs ws)
+  | .osome v, .osome w => .osome (syncPart v w)
+  | .either _ i v, .either m j w => if i = j then .either m j (syncPart v w) else .either m j w
+  | .vec vs, .vec ws => if vs.isEmpty then .vec ws else .vec (syncPartL vs ws)
+  | .any ty v, .any ty' w =>
+    if Ty.beq ty' ty then (if (suspFid ty').isSome then .any ty v else .any ty' (syncPart v w)) else .any ty' w
+  | _, b => b
+def syncPartL : List View → List View → List View
+  | v :: vs, w :: ws => syncPart v w :: syncPartL vs ws
+  | _, ws => ws
+end
+
+def runFinished (r : Stream.Run) : Bool :=
+  match r.out.getLast? with
+  | some .done => true
+  | some .panic => true
+  | some .stuck => true
+  | _ => false
+
+/-- one `poll_next` per entry of the plan (after the futures of that entry completed) until the stream has ended -/
+def runPlan (r : Stream.Run) : List (List Nat) → Stream.Run
+  | [] => r
+  | n :: ns => if runFinished r then r else runPlan (r.poll n) ns
+
+/-- the futures of one step per poll, then all the others at once, then polls until the end -/
+def planOf (done0 : List Nat) (steps : List (List Nat)) (fids : List Nat) : List (List Nat) :=
+  steps ++ [((fids.filter fun f => !done0.contains f && !steps.any (·.contains f)).mergeSort (· ≤ ·)).eraseDups]
+
+structure Streamed where
+  /-- the concatenation of the yielded chunks -/
+  raw : Str
+  /-- what the browser holds once the inline scripts have run -/
+  html : Str
+  /-- `done`, or how the stream failed -/
+  last : Option Stream.Poll
+
+/-- `view.to_html_stream_in_order()` / `to_html_stream_out_of_order()` driven by the harness' plan -/
+def stream (ooo : Bool) (done0 : List Nat) (steps : List (List Nat)) (v : View) : Streamed :=
+  let prog := (compile ooo done0 true v .firstChild).1
+  let r := (runPlan (Stream.startStream ooo done0 prog) (planOf done0 steps (fidsOf v))).drain 64
+  let raw := Stream.itemsOf r.out
+  ⟨raw, if ooo then Stream.applyScripts raw else raw, r.out.getLast?⟩
 
 end Leptos.Hydrate
